@@ -70,3 +70,9 @@ func VerifLowEntropyWireDecode(meta []byte, wirePayload []byte) ([]byte, error) 
 	}
 	return decodeLowEntropyEncryptedPayload(wirePayload, das)
 }
+
+// VerifReplaySignatureInput exposes which bytes of an encrypted metadata the
+// receive paths hand to the replay cache.
+func VerifReplaySignatureInput(encryptedMeta []byte, hasNonce bool) []byte {
+	return replaySignatureInput(encryptedMeta, hasNonce)
+}
